@@ -372,7 +372,7 @@ def factory_work(ps):
 
 def run(tier):
     res = Result(PID)
-    N, NF = (4, 3) if tier == "quick" else (6, 4)
+    N, NF = (5, 3) if tier == "quick" else (6, 4)
     rnd = random.Random(seed())
     allf = [f for n in range(1, N + 1) for f in F.forests(n)]
     rnd.shuffle(allf)
